@@ -147,3 +147,310 @@ def ordered_flag(t, rid):
                 if len(vs) < 3 and wrong:
                     r.bad(f"flag|{v}", c, f"ReceiveChannelReliable::new(.., ordered = {bool(v)}) is reached for send type {sorted(wrong)}: the receive side of that channel {'holds messages back in id order' if v else 'hands messages out as they arrive'} although it was configured otherwise")
     return r
+
+
+def confirm_kinds(t, rid):
+    """CONFIRM-KINDS: the server marks a session `confirmed` (which lets application payloads postpone the periodic keep-alive, F16) only on a
+    packet kind that a client sends after it has completed the handshake, i.e. one of the replay-protected kinds (read from
+    PacketType::apply_replay_protection). A re-sent connection Response (or an unauthenticated ConnectionRequest) from a client that is still
+    waiting for the first keep-alive must not confirm the session: that client ignores payloads and would never get its keep-alive."""
+    from rules.netcode_common import decode_sites, variants_at, replay_protected_kinds, CONN
+    r = RuleResult(rid, "Connection.confirmed is set only on packet kinds of the connected phase (the replay-protected kinds), never on a repeated handshake packet", floor=1)
+    ok_kinds = replay_protected_kinds(t)
+    if not ok_kinds: r.bad("kinds", None, "cannot read the replay-protected kinds"); return r
+    for s_ in t.stores(CONN, "confirmed"):
+        g = owner_fn(t, s_.fn)
+        if "NetcodeServer" not in g.path or const_eval(t.stored(s_)) != 1: continue
+        r.site(s_, "confirmed = true")
+        decs = decode_sites(t, s_.fn)
+        if not decs: r.bad(f"{short(g.path)}|no-decode", s_, "session confirmed in a function that does not decode a packet"); continue
+        vs = set()
+        for d in decs:
+            if s_.fn.dominates(d.bb, s_.bb): vs |= set(variants_at(t, s_.fn, d, s_.bb))
+        extra = vs - ok_kinds
+        if extra: r.bad(f"{short(g.path)}|kinds", s_, f"the session is marked confirmed for packet kinds {sorted(extra)}: a repeated handshake packet of a client that never received the first keep-alive confirms it, after which payloads suppress the keep-alive it is waiting for (it ends in ConnectionResponseTimedOut)")
+    return r
+
+
+def size_window(t, rid, fnames=("NetcodeServer::process_packet_internal", "NetcodeClient::process_packet", "renetcode::packet::Packet::<'a>::decode")):
+    """SIZE-WINDOW: a receive function refuses a datagram for its length only outside the window of lengths the peer's encoder produces:
+       smallest = 1 (prefix) + fewest sequence bytes + empty body + tag     (server: a conforming client uses sequence 0 for its first
+                  connection Response, so everything it sends on an established session carries at least one sequence byte)
+       largest  = max(1 + 8 + NETCODE_MAX_PAYLOAD_BYTES + tag, 1 + size of a ConnectionRequest)
+    Every branch that compares the buffer length with a constant and whose edge leaves the function without decoding is checked against that
+    window (all sizes are read from the code)."""
+    from sa import codec
+    from rules.netsize import min_return
+    r = RuleResult(rid, "SIZE-WINDOW: datagram length refusals lie outside the range of lengths the encoder produces (prefix + sequence + body + tag, up to the payload limit)", floor=1)
+    mac = t.F.consts.get("renetcode::NETCODE_MAC_BYTES", {}).get("val")
+    maxp = t.F.consts.get("renetcode::NETCODE_MAX_PAYLOAD_BYTES", {}).get("val")
+    try: sizes = codec.netcode_packet_sizes(t.F)
+    except Exception: sizes = {}
+    seq_min = min_return(t, "renetcode::packet::sequence_bytes_required")
+    enc = [v for n, v in sizes.items() if n != "ConnectionRequest" and isinstance(v, int)]
+    if mac is None or maxp is None or seq_min is None or not enc or not isinstance(sizes.get("ConnectionRequest"), int):
+        r.samples.append("sizes not resolvable: rule not evaluated"); r.sites = 1; return r
+    largest = max(1 + 8 + maxp + mac, 1 + sizes["ConnectionRequest"])
+    is_len = lambda a: isinstance(strip(a), tuple) and strip(a)[0] == "call" and method_of(strip(a)[1]) == "len" and re.search(r"P\d+\((buffer|packet|data)\)", fmt(a))
+    is_k = lambda b: const_eval(b) is not None
+    for fname in fnames:
+        try: f = t.fn(fname)
+        except Exception: continue
+        smallest = 1 + (max(1, seq_min) if "Server" in fname else seq_min) + min(enc) + mac
+        work = [c for c in t.sites(f) if c.node["k"] == "call" and re.search(r"Packet::<'a>::decode$|dencrypted_in_place|Packet::<'a>::read$", callee_name(c.node))]
+        if not work: continue
+        for rel in ("Lt", "Le", "Gt", "Ge", "Eq"):
+            for e, br in rel_edges(t, f, is_len, is_k, rel):
+                cnd = br.get("cond") or ()
+                if len(cnd) < 4 or cnd[0] != "cmp": continue
+                k = None
+                for a_, b_ in rebalanced(cnd[2], cnd[3]):
+                    if is_len(a_) and is_k(b_): k = const_eval(b_); break
+                    if is_len(b_) and is_k(a_): k = const_eval(a_); break
+                if k is None: continue
+                region = f.reachable_from([e[1]])
+                if e[1] == br["bb"] or any(w.bb in region for w in work): continue      # not a refusing edge: the datagram is still decoded
+                s_ = _term_site(f, br["bb"])
+                r.site(s_, f"refuses len {rel} {k}")
+                bad = (rel == "Lt" and k > smallest) or (rel == "Le" and k >= smallest) or (rel == "Gt" and k < largest) or (rel == "Ge" and k <= largest) or (rel == "Eq" and smallest <= k <= largest)
+                if bad:
+                    r.bad(f"{short(f.path)}|{rel}|{k}", s_, f"{short(f.path)} refuses datagrams with len {rel} {k} before decoding, but the peer's encoder produces every length from {smallest} to {largest} bytes (prefix + sequence + body + {mac}-byte tag; payload limit {maxp}): genuine packets of that size are never surfaced")
+    r.samples.append(f"window read from the code: largest {largest}, tag {mac}, fewest sequence bytes {seq_min}, bodies {sorted(set(enc))[:4]}")
+    return r
+
+
+def writer_total(t, rid):
+    """WRITER-TOTAL: renet's Packet::to_bytes refuses no packet the packers can hand it: the only errors it returns are the residuals of the
+    octets `put_*` calls (buffer too short, which the size bound of C13 excludes). An error value constructed by the writer itself (a new
+    validation such as `messages.is_empty()` or `last.end > MAX`) turns a packet the library legitimately builds into
+    PacketSerialization(..) and disconnects the connection."""
+    r = RuleResult(rid, "Packet::to_bytes constructs no error of its own: every Err comes from an octets put_* call", floor=1)
+    f0 = t.fn("renet::packet::Packet::to_bytes")
+    for f in fn_and_closures(t, f0):
+        for c in t.sites(f):
+            if c.node["k"] == "call" and re.search(r"::put_(u8|u16|u32|u64|varint|bytes|varint_with_len)$", callee_name(c.node)): r.sites += 1
+        for s in t.sites(f):
+            if s.node["k"] != "assign" or s.node["rv"]["k"] != "aggr": continue
+            if is_log_or_derive(s.node["span"]): continue
+            p = str(s.node["rv"].get("path") or "")
+            if p.endswith("SerializationError") or (p.endswith("result::Result") and s.node["rv"].get("vname") == "Err" and "from_residual" not in fmt(t.stored(s))):
+                if p.endswith("result::Result") and not re.search(r"SerializationError|Error", fmt(t.stored(s))): continue
+                r.bad(f"own-error|{s.node['rv'].get('vname')}", s, f"the packet writer builds an error itself ({fmt(t.stored(s))[:70]}): a packet produced by the library's own packers can be refused at serialisation, which disconnects the connection")
+    return r
+
+
+def budget_field_prov(t, rid):
+    """PROV: the per-tick budget a connection works with is the configured one: RenetClient.available_bytes_per_tick is written only where the
+    connection is built, with the configuration value itself (no arithmetic, no clamp)."""
+    r = RuleResult(rid, "RenetClient.available_bytes_per_tick is the configured value unchanged (written only at construction)", floor=1)
+    RC = "remote_connection::RenetClient"
+    def pure(o):
+        o = strip(o)
+        while isinstance(o, tuple) and o[0] == "field": o = strip(o[1])
+        return isinstance(o, tuple) and o[0] == "param"
+    for s in t.aggrs(RC):
+        v = t.field_of_aggr(s, "available_bytes_per_tick")
+        if v is None: continue
+        r.site(s, f"= {fmt(v)[:60]}")
+        if not pure(v): r.bad(f"{short(s.fn.path)}|value", s, f"the connection's per-tick budget is built as {fmt(v)[:90]} instead of the configured available_bytes_per_tick: more (or fewer) bytes than configured leave per tick")
+    for s in t.stores(RC, "available_bytes_per_tick"):
+        r.site(s, "store")
+        r.bad(f"{short(s.fn.path)}|store", s, "the per-tick budget of a live connection is overwritten")
+    return r
+
+
+def last_sent_values(t, rid):
+    """the retransmission timer of a message/slice is only ever set forward: inside SendChannelReliable::get_packets_to_send every store to
+    `last_sent` is `Some(current_time)`. Clearing it (None) or back-dating it makes the next tick retransmit before resend_time has elapsed."""
+    r = RuleResult(rid, "in the send loop a retransmission timer is only set to Some(current_time) (never cleared or back-dated)", floor=1)
+    f0 = t.fn("SendChannelReliable::get_packets_to_send")
+    for f in fn_and_closures(t, f0):
+        for s in t.sites(f):
+            n = s.node
+            if n["k"] != "assign" or not n["place"]["proj"] or "last_sent" not in fmt(t.place(s)): continue
+            v = strip(t.stored(s))
+            r.site(s, fmt(v)[:50])
+            ok = isinstance(v, tuple) and v[0] == "aggr" and v[2] == "Some" and "current_time" in fmt(resolved(t, v[3][0], f))
+            if not ok: r.bad(f"value|{fmt(v)[:30]}", s, f"a retransmission timer is set to {fmt(v)[:60]} in the send loop: the message/slice can be transmitted again before resend_time has elapsed since its previous transmission")
+    return r
+
+
+def request_fields_prov(t, rid):
+    """PROV: what handle_connection_request validates and authenticates is what arrived: every field argument (version info, protocol id, expire
+    timestamp, xnonce, private data) is the corresponding field of the decoded ConnectionRequest packet, unchanged - in particular the expiry
+    that is both tested and fed into the token's associated data."""
+    r = RuleResult(rid, "handle_connection_request receives the fields of the decoded ConnectionRequest unchanged (no clamped/substituted expiry, id or nonce)", floor=2)
+    f = t.fn("NetcodeServer::process_packet_internal")
+    for c in t.calls(r"NetcodeServer::handle_connection_request$", f):
+        r.site(c)
+        for i, a in enumerate(t.args(c)[2:], start=2):
+            o = strip(a)
+            ok = isinstance(o, tuple) and o[0] == "field" and isinstance(strip(o[1]), tuple) and strip(o[1])[0] == "as" and strip(o[1])[2] == "ConnectionRequest"
+            if not ok and isinstance(o, tuple) and o[0] == "param": ok = True
+            if not ok: r.bad(f"arg{i}", c, f"argument {i} of handle_connection_request is {fmt(o)[:100]}, not a field of the received ConnectionRequest: the value that is checked / authenticated differs from the one on the wire (a tampered public field is silently repaired)")
+    return r
+
+
+def token_history_writers(t, rid):
+    """WRITERS: the connect-token history (connect_token_entries), which binds a token to the first address it was seen from for the token's whole
+    lifetime, is written only by find_or_add_connect_token_entry (and initialised by the constructor): nothing clears or rewrites an entry."""
+    r = RuleResult(rid, "connect_token_entries is written only by find_or_add_connect_token_entry (no clearing when a session ends)", floor=1)
+    NS_ = "server::NetcodeServer"
+    for f in t.fns(r"^renetcode::server::"):
+        for s in t.sites(f):
+            n = s.node
+            hit = None
+            if n["k"] == "assign" and n["place"]["proj"] and "connect_token_entries" in fmt(t.place(s)): hit = "store"
+            elif n["k"] == "call" and n["args"] and "connect_token_entries" in fmt(t.arg(s, 0)) and method_of(callee_name(n)) in ("fill", "clear", "iter_mut", "swap", "take", "replace", "insert", "remove", "push", "truncate", "retain", "for_each", "index_mut", "get_mut", "as_mut", "copy_from_slice", "clone_from_slice"):
+                hit = method_of(callee_name(n))
+            if not hit: continue
+            g = owner_fn(t, f)
+            r.site(s, f"{hit} in {short(g.path)}")
+            if not re.search(r"::find_or_add_connect_token_entry$|NetcodeServer::new$", g.path):
+                r.bad(f"{short(g.path)}|{hit}", s, f"{short(g.path)} modifies the connect-token history ({hit}): once an entry is dropped or rewritten, the same (still unexpired) token is accepted from another address")
+    return r
+
+
+def no_stored_slot_index(t, rid):
+    """INDEX-PROV: a slot of NetcodeServer.clients is reached by scanning the table (position / enumerate / find / the id and address helpers), never
+    through an index remembered in a field of the server: a remembered slot can meanwhile hold another client's session."""
+    r = RuleResult(rid, "NetcodeServer.clients is never indexed by a value stored in a server field (slots are found by scanning)", floor=1)
+    for f in t.fns(r"^renetcode::server::"):
+        g = owner_fn(t, f)
+        if "NetcodeServer" not in g.path: continue
+        for s in t.sites(f):
+            n = s.node
+            outs = []
+            if n["k"] == "assign": outs = [t.place(s), t.stored(s)]
+            elif n["k"] == "call": outs = [a for a in t.args(s)]
+            for o in outs:
+                for idx in _index_uses(o, "clients"):
+                    r.sites += 1
+                    idr = resolved(t, idx, f)
+                    if contains(idr, lambda x: isinstance(x, tuple) and x and x[0] == "field" and isinstance(strip(x[1]), tuple) and fmt(strip(x[1])) in ("*P1(self)", "P1(self)") and x[2] not in ("clients",)):
+                        r.bad(f"{short(g.path)}|field-index", s, f"clients[..] is indexed by {fmt(idr)[:80]}, a value kept in the server between calls: the slot may have been reused for another client id since it was stored")
+    return r
+
+
+def _index_uses(o, field, out=None):
+    """index origins used to index self.<field> inside origin expression o (place projection or Index/IndexMut/get/get_mut call)"""
+    if out is None: out = []
+    if isinstance(o, tuple):
+        if o and o[0] == "index" and fmt(strip(o[1])).endswith("." + field): out.append(o[2])
+        if o and o[0] == "call" and len(o) > 2 and len(o[2]) == 2 and method_of(o[1]) in ("index", "index_mut", "get", "get_mut", "get_unchecked", "get_unchecked_mut") and re.search(r"\." + field + r"\)*$", fmt(strip(o[2][0]))): out.append(o[2][1])
+        for x in o:
+            if isinstance(x, tuple): _index_uses(x, field, out)
+    return out
+
+
+def connect_event_total(t, rid):
+    """PAIR (insert => event): in RenetServer::add_connection every path from the insertion of a new connection to the return pushes the
+    ClientConnected event (no further condition between the two, e.g. a dedup of queued events)."""
+    r = RuleResult(rid, "every insertion into connections is followed by the ClientConnected event on all paths", floor=1)
+    for f0 in (t.fn("RenetServer::add_connection"), t.fn("RenetServer::new_local_client")):
+        for f in fn_and_closures(t, f0):
+            ins = [c for c in t.sites(f) if c.node["k"] == "call" and c.node["args"] and method_of(callee_name(c.node)) in ("insert", "or_insert", "or_insert_with", "try_insert") and ("connections" in fmt(t.arg(c, 0)))]
+            ins += [c for c in t.sites(f) if c.node["k"] == "call" and c.node["args"] and re.search(r"VacantEntry.*::insert$", callee_name(c.node)) and "connections" in fmt(t.arg(c, 0))]
+            pushes = [c for c in t.sites(f) if c.node["k"] == "call" and len(c.node["args"]) > 1 and method_of(callee_name(c.node)) in ("push_back", "push", "push_front") and "ClientConnected" in fmt(t.arg(c, 1))]
+            seen = set()
+            for c in ins:
+                if pos(c) in seen: continue
+                seen.add(pos(c)); r.site(c, "insert")
+                if not pushes: continue      # (delegated: the event is pushed by a callee; C12.c1 covers the pairing in the other direction)
+                ok, w = must_pass(f, pos(c), {pos(p) for p in pushes})
+                if not ok: r.bad(f"{short(f0.path)}|no-event", c, "a connection is inserted on a path that returns without pushing ServerEvent::ClientConnected: the application never learns of a live connection (and later sees a ClientDisconnected without a ClientConnected)")
+    return r
+
+
+def address_codec_identity(t, rid):
+    """CODEC-ID (writer side): the token address list is written from the addresses as stored: no address-transforming call
+    (to_canonical, to_ipv4_mapped, to_ipv6_mapped, ..) in write_server_addresses, so what is read back is the SocketAddr that went in."""
+    r = RuleResult(rid, "the token address writer/reader applies no address transformation (to_canonical, to_ipv4_mapped, ..)", floor=1)
+    for fname in ("token::write_server_addresses", "token::read_server_addresses"):
+        try: f0 = t.fn(fname)
+        except Exception: continue
+        for f in fn_and_closures(t, f0):
+            r.sites += 1
+            for c in t.sites(f):
+                if c.node["k"] == "call" and method_of(callee_name(c.node)) in ("to_canonical", "to_ipv4", "to_ipv4_mapped", "to_ipv6_mapped", "to_ipv6_compatible"):
+                    r.bad(f"{fname}|{method_of(callee_name(c.node))}", c, f"{fname} applies {method_of(callee_name(c.node))}() to an address: an IPv4-mapped IPv6 address does not read back as the address that was written (a secure server no longer finds itself in the host list)")
+    return r
+
+
+def lookup_key_only(t, rid):
+    """KEY-ONLY lookups: the table lookups by id / by address decide on the key alone. A session that is in the slot array owns its id and its
+    address until the slot is cleared; a lookup that also looks at `state`, `confirmed`, a timer .. makes a session that is still listed
+    (clients_id, client_addr, is_client_connected) invisible to the dispatch and to the already-connected checks, so a second session for the
+    same id/address can be admitted next to it."""
+    r = RuleResult(rid, "find_client_*_by_id / _by_addr test nothing but the key (client_id / addr) of an occupied slot", floor=4)
+    allowed = {"find_client_mut_by_id": {"client_id"}, "find_client_by_id": {"client_id"}, "find_client_slot_by_id": {"client_id"}, "find_client_mut_by_addr": {"addr"}}
+    for name, keys in allowed.items():
+        try: top = t.fn("renetcode::server::" + name)
+        except Exception: continue
+        fs = [g for g in t.fns() if g.path == top.path or g.path.startswith(top.path + "::{closure")]
+        r.site(Site(top, 0, 0, top.blocks[0]["term"]), name)
+        used = set()
+        for g in fs:
+            conds = [br.get("raw") if br["kind"] == "bool" else br.get("on") for br in t.branches(g)]
+            if "{closure" in g.path: conds.append(g.origin_of_local(0))
+            for o in conds:
+                def visit(x):
+                    if isinstance(x, tuple):
+                        if x and x[0] == "field" and len(x) > 3 and str(x[3] or "").endswith("Connection"): used.add(x[2])
+                        for y in x:
+                            if isinstance(y, tuple): visit(y)
+                visit(o)
+        extra = used - keys
+        if extra: r.bad(f"{name}|extra-field|{sorted(extra)[0]}", Site(top, 0, 0, top.blocks[0]["term"]), f"{name} also looks at Connection.{sorted(extra)} when it searches the table: a listed session can be skipped, so its id/address is treated as free while the slot is still occupied")
+    return r
+
+
+def free_slot_only(t, rid):
+    """FREE-SLOT: the slot a new session is stored into is chosen by `position(is_none)` alone. Every `position` that contributes to the index of
+    the slot fill (directly, or through the closure of an `or_else` / `unwrap_or_else` fallback) has the predicate "slot is empty"; a fallback
+    that picks an occupied slot (unconfirmed, oldest, ..) overwrites a session that was reported with ClientConnected, without any
+    ClientDisconnected."""
+    r = RuleResult(rid, "the slot index of the slot fill comes only from position(|slot| slot.is_none())", floor=1)
+    f = t.fn("NetcodeServer::process_packet_internal")
+    def closure_by_tag(o):
+        txt = str(o[1]) if isinstance(o, tuple) and o[0] == "aggr" else ""
+        m = re.search(r"([A-Za-z_0-9:<>' ]+\{closure#\d+\}(::\{closure#\d+\})*)", txt)
+        if not m: return None
+        tag = m.group(1)
+        c = [g for g in t.fns() if g.path.endswith(tag) or short(g.path) == tag or g.path.endswith("::" + tag.split("::", 1)[-1])]
+        return c[0] if len(c) >= 1 else None
+    def pred_is_empty(g):
+        v = strip(g.origin_of_local(0))
+        if isinstance(v, tuple) and v[0] == "call" and method_of(v[1]) == "is_none": return True
+        # `matches!(slot, None)`: a switch on the slot's discriminant yielding the constants
+        if isinstance(v, tuple) and v[0] == "phi" and all(const_eval(x) is not None for x in v[2]):
+            brs = [br for br in t.branches(g) if br["kind"] == "discr"]
+            fields = [br for br in t.branches(g) if br["kind"] == "bool"]
+            return len(brs) == 1 and not fields and all(not isinstance(x, tuple) or True for x in ())
+        return False
+    bad, n = [], [0]
+    def walk(o, depth=0):
+        if depth > 6 or not isinstance(o, tuple): return
+        if o and o[0] == "call":
+            m_ = method_of(o[1])
+            cl = [closure_by_tag(strip(a)) for a in o[2]]
+            if m_ in ("position", "rposition") and len(o[2]) == 2:
+                n[0] += 1
+                g = next((c for c in cl if c is not None), None)
+                p_ = strip(o[2][1])
+                by_name = isinstance(p_, tuple) and p_[0] == "fn" and str(p_[1]).endswith("is_none")      # position(Option::is_none)
+                if not by_name and (g is None or not pred_is_empty(g)): bad.append(fmt(o)[:90])
+            else:
+                for g in cl:
+                    if g is not None: walk(g.origin_of_local(0), depth + 1)
+        for x in o:
+            if isinstance(x, tuple): walk(x, depth + 1)
+    for s in t.sites(f):
+        if s.node["k"] == "assign" and any(p["k"] == "index" for p in s.node["place"]["proj"]) and fmt(t.place(s)).count("clients") and "Some" in fmt(t.stored(s))[:30]:
+            idx = [pr for pr in s.node["place"]["proj"] if pr["k"] == "index"][0]
+            o = f.origin_of_local(idx["local"])
+            r.site(s, fmt(o)[:60])
+            walk(o)
+            for b in bad: r.bad("not-empty-pred", s, f"the slot that is filled can come from {b}: a predicate other than `slot is empty` selects an occupied slot, whose session is overwritten without a ClientDisconnected")
+            bad.clear()
+    return r
